@@ -355,7 +355,8 @@ def build_obligation(inst):
                 reals = OrderedDict(x=(), y=())
                 g, W, P = mk_gaussian(mk, "a", batch, reals, rank)
                 y = Variable("y", Real)
-                c = mk.array("c", (), "real")
+                # max/min of y * t is y * max(t) only for y >= 0 ((max|min, mul) is a semiring on non-negative data)
+                c = mk.array("c", (), "pos" if how in ("reduce_max", "reduce_min") else "real")
                 C_ = _cells(c)[()]
                 from lang import cellops as CO
                 if how == "square":
@@ -366,8 +367,12 @@ def build_obligation(inst):
                     t = Tensor(T_, OrderedDict(r_=Bint[2]))
                     Tc = _cells(T_)
                     opn = how.split("_", 1)[1]
-                    h = g(x=(y * t).reduce(getattr(ops, opn), "r_"))
-                    xv = CO.fold(opn, [C_ * Tc[0], C_ * Tc[1]])
+                    if opn == "mulsum":      # a product over a SUM: stays a Reduce term, (c + t0)(c + t1) is not affine in c
+                        h = g(x=(y + t).reduce(ops.mul, "r_"))
+                        xv = (C_ + Tc[0]) * (C_ + Tc[1])
+                    else:
+                        h = g(x=(y * t).reduce(getattr(ops, opn), "r_"))
+                        xv = CO.fold(opn, [C_ * Tc[0], C_ * Tc[1]])
                 r = h(y=Tensor(c))
                 if r.inputs.keys() - set(batch):
                     import z3
@@ -471,7 +476,7 @@ def instances(tier, seed):
     for b in BATCH_CFGS[:2]:
         for rank in (1, 2, 3):
             out.append(("lazy_nonaffine", b, rank))
-            for how in ("reduce_add", "reduce_max", "reduce_min", "reduce_mul"):
+            for how in ("reduce_add", "reduce_max", "reduce_min", "reduce_mul", "reduce_mulsum"):
                 out.append(("lazy_nonaffine", b, rank, how))
     return out
 
